@@ -4,6 +4,7 @@ package c15
 import (
 	"bytes"
 	"fmt"
+	"google.golang.org/protobuf/runtime/protoiface"
 	"strings"
 
 	"google.golang.org/protobuf/proto"
@@ -204,7 +205,7 @@ func (cfg *sysCfg) ops(f univ.Flavor) []hist.Op[*state] {
 }
 
 func run(c *core.Ctx) {
-	c.Rule = "explicit-state exploration of every history of <=D operations (one mutation per field class: scalar/bytes/enum/message/list/map/oneof/extension/unknown/lazy; clear-all; Size; touch-all; Unmarshal / Unmarshal{Merge} / Unmarshal{NoLazyDecoding} of 10 encodings plus a truncated and a trailing-garbage input, which fail and leave partial state) on a real message, each followed by every closing operation: Unmarshal(w) without Merge for each w, which must leave the message identical to a fresh decode of w (Equal both ways, snapshot, deterministic bytes, and a full dump of Has/Get of EVERY field and registered extension, populated or not), and proto.Reset, which must leave it identical to a fresh empty message (same full dump, Size 0). Generated (open, opaque, hybrid, lazy) and dynamicpb messages"
+	c.Rule = "explicit-state exploration of every history of <=D operations (one mutation per field class: scalar/bytes/enum/message/list/map/oneof/extension/unknown/lazy; clear-all; Size; touch-all; Unmarshal / Unmarshal{Merge} / Unmarshal{NoLazyDecoding} of 10 encodings plus a truncated and a trailing-garbage input, which fail and leave partial state) on a real message, each followed by every closing operation: Unmarshal(w) without Merge for each w (through UnmarshalOptions.Unmarshal, then again through UnmarshalState and proto.Unmarshal), which must leave the message identical to a fresh decode of w (Equal both ways, snapshot, deterministic bytes, and a full dump of Has/Get of EVERY field and registered extension, populated or not), and proto.Reset, which must leave it identical to a fresh empty message (same full dump, Size 0). Generated (open, opaque, hybrid, lazy) and dynamicpb messages"
 	c.Exhaustive = true
 	depth := core.Pick(c, 2, 3)
 	type tc struct {
@@ -332,6 +333,19 @@ func run(c *core.Ctx) {
 						c.Violation(fmt.Sprintf("second Unmarshal(%s) fails: history=%s", r.in.Name, hname()), err.Error())
 					} else if got := fullDump(st.m); got != r.dump {
 						c.Violation(fmt.Sprintf("second Unmarshal(%s) differs: history=%s", r.in.Name, hname()), nil)
+					}
+					// the third public entry point: a non-merging UnmarshalState must reset as well
+					if _, err := (proto.UnmarshalOptions{AllowPartial: true, Resolver: f.Res}).UnmarshalState(protoiface.UnmarshalInput{Buf: r.in.B, Message: st.m}); err != nil {
+						c.Violation(fmt.Sprintf("UnmarshalState(%s) fails: history=%s", r.in.Name, hname()), err.Error())
+					} else if got := fullDump(st.m); got != r.dump {
+						c.Violation(fmt.Sprintf("non-merging UnmarshalState(%s) leaves state behind: history=%s", r.in.Name, hname()), map[string]any{"want": r.dump, "got": got})
+					}
+					if !f.Dynamic {
+						if err := proto.Unmarshal(r.in.B, st.m.Interface()); err == nil {
+							if got := fullDump(st.m); got != r.dump {
+								c.Violation(fmt.Sprintf("proto.Unmarshal(%s) leaves state behind: history=%s", r.in.Name, hname()), nil)
+							}
+						}
 					}
 				})
 			}
